@@ -7,8 +7,8 @@ from core import Inst
 import c07, c13, exprlib
 
 META = {
-    'functions': ['type.c:mktype/mkpointertype/mkarraytype', 'decl.c:mkdecl', 'expr.c:mkexpr/mkconstexpr', 'qbe.c:emitdata (image)', 'scan.c:scan (token)', 'qbe.c:funcexpr (lowering)'],
-    'bounds': {'twin': 'symbolic constructor arguments, symbolic heap garbage (first 160 bytes of every block)', 'reuse': 'slices of C07/C13/C01 instances'},
+    'functions': ['decl.c:declarator/tagspec/addmember', 'init.c:parseinit', 'expr.c:primaryexpr/postfixexpr', 'type.c:mktype/mkpointertype/mkarraytype', 'decl.c:mkdecl', 'expr.c:mkexpr/mkconstexpr', 'qbe.c:emitdata (image)', 'scan.c:scan (token)', 'qbe.c:funcexpr (lowering)'],
+    'bounds': {'parser-level': 'flexible/zero-width/aligned layouts, incomplete-array, union and string initializers, literal and compound-literal typing (see C06/C07/C05 for the oracles)', 'twin': 'symbolic constructor arguments, symbolic heap garbage (first 160 bytes of every block)', 'reuse': 'slices of C07/C13/C01 instances'},
     'stubs': ['xmalloc fills blocks with symbolic garbage'],
     'outside': ['locale/TZ/cwd/ASLR perturbation of the real process', 'stdin vs file, -o vs stdout (libc I/O)', 'self-built vs reference-built binary (C02)', 'hash-table iteration order (only mapfree iterates)'],
 }
@@ -22,6 +22,12 @@ def instances(build, tier, seed):
     L += [i for i in c13.scan_instances('quick', fam='pure.scan') if 'SECOND' not in i.defs and i.defs['FIRST'] % 8 == 1]
     L += [i for i in exprlib.expr_instances('quick', seed, 'ONLY_RT', 'pure.select', ops=('add', 'lt', 'shr')) if not i.optional][::3]
     L += exprlib.ptrcmp_instances('quick', seed, 'ONLY_RT', 'pure.select')
+    # parser-level: declarators, struct/union layout, initializer parsing and typing run on allocator blocks with arbitrary contents; every result
+    # (sizes, offsets, emitted images, type judgements) is pinned, so a field read before it is written shows up as a failing assertion
+    import c06, initlib, typeoflib
+    L += [i for i in c06.abi_instances('quick', seed, fam='pure.layout') if '[]' in i.bound['definition'] or ': 0' in i.bound['definition'] or 'alignas' in i.bound['definition']][:10]
+    L += [i for i in initlib.static_instances('quick', fam='pure.init') if '[]' in i.bound['declaration'] or 'union' in i.bound['declaration'] or '"' in i.bound['declaration']]
+    L += [i for i in typeoflib.instances('quick', fam='pure.typeof') if any(w in i.bound['expression'] for w in ('"', '){', 'sizeof', 'arr2'))]
     # side evidence, recorded in META (not a solver obligation)
     try:
         out = subprocess.run(['nm', '-u', build.nat + '/cproc-qbe'], capture_output=True, text=True).stdout
